@@ -281,10 +281,11 @@ Variables X Y : IPS.
 Variable A : LinOp X Y.
 
 Notation st := (@cgnst R X Y).
-Definition CGNinit (b : Y) (x : X) : st := cgn_init X Y inner vplus smul A (adj A) b x.
+Variable eps2 : R.
+Definition CGNinit (b : Y) (x : X) : st := cgn_init X Y inner vplus smul A (adj A) eps2 b x.
 Definition CGNstep (s : st) : option st := cgn_step X Y vplus smul inner vplus smul inner A (adj A) s.
 Definition CGNrun (b : Y) (x : X) (n : nat) : list st :=
-  cgn_run X Y vplus smul inner vplus smul inner A (adj A) b x n.
+  cgn_run X Y vplus smul inner vplus smul inner A (adj A) eps2 b x n.
 
 Definition cgn_inv (b : Y) (s : st) : Prop :=
   n_d X Y s = b -' A (n_x X Y s) /\ n_s X Y s = adj A (n_d X Y s) /\
@@ -299,10 +300,11 @@ Lemma cgn_step_spec b s s' :
   nsq (n_d X Y s') = nsq (n_d X Y s) - n_ss X Y s * n_ss X Y s / nsq (A (n_p X Y s)).
 Proof.
   intros (Hd & Hs & Hss & Hsp). unfold CGNstep, cgn_step. numR.
-  destruct s as [x d p s ss]; cbn [n_x n_d n_p n_s n_ss] in *.
+  destruct s as [x d p s ss stp]; cbn [n_x n_d n_p n_s n_ss n_stop] in *.
+  destruct (Rleb ss stp); [discriminate|].
   fold (nsq (A p)).
   destruct (Reqb_spec (nsq (A p)) 0) as [|Hqq]; [discriminate|].
-  intros E; injection E as <-. cbn [n_x n_d n_p n_s n_ss].
+  intros E; injection E as <-. cbn [n_x n_d n_p n_s n_ss n_stop].
   set (qq := nsq (A p)) in *. set (a := ss / qq).
   assert (Hqq0 : 0 < qq) by (pose proof (nsq_pos Y (A p)); fold qq in H; lra).
   assert (Hdq : <<d, A p>> = ss).
@@ -313,7 +315,7 @@ Proof.
   assert (Hres : nsq (d +' (- a) *' A p) = nsq d - ss * ss / qq).
   { rewrite nsq_add_scal, Hdq. fold qq. unfold a. field. lra. }
   set (s' := adj A (d +' (- a) *' A p)) in *.
-  unfold cgn_inv; cbn [n_x n_d n_p n_s n_ss].
+  unfold cgn_inv; cbn [n_x n_d n_p n_s n_ss n_stop].
   repeat split; auto.
   - rewrite Hd; vec_eq'.
   - rewrite inner_add_r, inner_scal_r, Hz. unfold nsq. ring.
